@@ -49,14 +49,16 @@ def check(ctx, rid):
     errs = (Undecided, KeyError, TypeError, ValueError, IndexError, AttributeError)
 
     # ---------------- _TensorViewer
-    for parts in ([[1, 3], [0, 2]], [[4], [0, 1], [2, 3]], [[0, 1, 2], [3, 4]]):
+    # interleaved, reversed-block, contiguous-in-order, contiguous-out-of-order and "first indices ascending but interleaved" layouts
+    for parts in ([[1, 3], [0, 2]], [[4], [0, 1], [2, 3]], [[0, 1, 2], [3, 4]], [[2, 3], [0, 1]], [[0, 3, 4], [1, 2]]):
         n = sum(len(p) for p in parts)
         lab = str(parts)
         site = f"{TC}::_TensorViewer {lab}"
         try:
             w = world(repo)
-            tv = w.new(tvc, [[[c(i) for i in p] for p in parts]], {})
-            for batched in (False, True):
+            tv_plain = w.new(tvc, [[[c(i) for i in p] for p in parts]], {})
+            tv_sized = w.new(tvc, [[[c(i) for i in p] for p in parts]], {"batch_size": c(2)})  # as the batched model builds its viewers
+            for batched, tv in ((False, tv_plain), (True, tv_plain), (True, tv_sized), (False, tv_sized)):
                 rows = 2 if batched else 1
                 data = [[[at(f"p{i}k{k}r{r}") for k in range(len(p))] for r in range(rows)] for i, p in enumerate(parts)]
                 arg = data if batched else [d[0] for d in data]
